@@ -54,7 +54,7 @@ TProve ==
               /\ (ev.pv.nofacts = "acc") => Bad("checker-accepts-the-proof-against-a-program-without-its-facts")
               /\ (~holdsBase /\ ev.pv.norules = "acc") => Bad("checker-accepts-the-proof-against-a-program-without-its-rules")
               \* "guards": the reference program has every primitive guard of every rule negated
-              /\ (Has(ev.pv, "guards") /\ ~holdsUng /\ ev.pv.guards = "acc") => Bad("checker-accepts-the-proof-against-a-program-with-negated-rule-guards")
+              /\ (Has(ev.pv, "guards") /\ ~holdsUng /\ ev.pv.guards = "acc") => Bad("checker-accepts-the-proof-with-negated-rule-guards")
   /\ UNCHANGED <<vars, tainted, declf, cur, other, cmpst, sch, prev, base, ung>>
 
 PNext == (~IsProve /\ TraceNext /\ base' = BaseAfter(Rec[l]) /\ ung' = UngAfter(Rec[l])) \/ TProve
